@@ -24,6 +24,28 @@ import (
 
 func cn(i int64) string { return fmt.Sprintf("c%d", i) }
 func sn(i int64) string { return fmt.Sprintf("s%d", i) }
+// backend addresses of every shape the cluster table accepts: host names, IPv4 and IPv6 literals (whose "addr:port"
+// key contains further colons) - the same backend must be recognised across reloads whatever its address looks like
+func addrStr(a int64) string {
+	switch a % 3 {
+	case 1:
+		return fmt.Sprintf("fe80::%d", a)
+	case 2:
+		return fmt.Sprintf("10.0.0.%d", a)
+	}
+	return fmt.Sprintf("h%d", a)
+}
+
+func addrNum(s string) int {
+	var n int
+	for _, f := range []string{"fe80::%d", "10.0.0.%d", "h%d"} {
+		if _, err := fmt.Sscanf(s, f, &n); err == nil {
+			return n
+		}
+	}
+	return -1
+}
+
 func num(s string) int {
 	var c byte
 	var n int
@@ -62,7 +84,7 @@ func walk(t *bfe_balance.BalTable, clusters map[int]bool) (dump hv.L, live map[*
 			var rows []row
 			for k, b := range bs {
 				live[b] = true
-				rows = append(rows, row{num(b.Addr), hv.L{hv.I(num(b.Addr)), hv.I(num(b.Name)), hv.I(ws[k]), hv.Bool(b.Avail()),
+				rows = append(rows, row{addrNum(b.Addr), hv.L{hv.I(addrNum(b.Addr)), hv.I(num(b.Name)), hv.I(ws[k]), hv.Bool(b.Avail()),
 					hv.I(b.ConnNum()), hv.I(b.FailNum()), hv.Bool(closed(b))}})
 			}
 			sort.SliceStable(rows, func(x, y int) bool { return rows[x].a < rows[y].a })
@@ -123,7 +145,7 @@ func selection(bal *bal_gslb.BalanceGslb) (hv.Val, hv.Val) {
 			if b.SubCluster != req.Backend.SubclusterName {
 				errs[8] = true
 			}
-			picks[num(b.SubCluster)*100+num(b.Addr)] = true
+			picks[num(b.SubCluster)*100+addrNum(b.Addr)] = true
 		case err == bfe_basic.ErrBkNoSubCluster:
 			errs[1] = true
 		case err == bfe_basic.ErrBkNoBackend:
@@ -195,7 +217,7 @@ func impl(in hv.Val) hv.Val {
 					sb := cluster_table_conf.SubClusterBackend{}
 					for _, be := range hv.AsList(q[1]) {
 						x := hv.AsList(be)
-						addr, name, port, w := fmt.Sprintf("h%d", hv.AsInt(x[0])), fmt.Sprintf("n%d", hv.AsInt(x[1])), 80, int(hv.AsInt(x[2]))
+						addr, name, port, w := addrStr(hv.AsInt(x[0])), fmt.Sprintf("n%d", hv.AsInt(x[1])), 80+int(hv.AsInt(x[0]))%3, int(hv.AsInt(x[2]))
 						sb = append(sb, &cluster_table_conf.BackendConf{Name: &name, Addr: &addr, Port: &port, Weight: &w})
 					}
 					cb[sn(hv.AsInt(q[0]))] = sb
@@ -251,7 +273,7 @@ func impl(in hv.Val) hv.Val {
 						continue
 					}
 					for _, b := range bal_slb.VerifC05Backends(brrs[i]) {
-						if num(b.Addr) != int(hv.AsInt(op[3])) {
+						if addrNum(b.Addr) != int(hv.AsInt(op[3])) {
 							continue
 						}
 						v := int(hv.AsInt(op[5]))
@@ -469,5 +491,5 @@ func gen(r *hv.Rng, i int, tier string) (string, hv.Val) {
 }
 
 func main() {
-	hv.Main(&hv.Spec{Prop: "C09", Gen: gen, Impl: impl, NQuick: 3000, NThorough: 150000})
+	hv.Main(&hv.Spec{Prop: "C09", Gen: gen, Impl: impl, NQuick: 2200, NThorough: 150000})
 }
